@@ -71,3 +71,56 @@ Proof. reflexivity. Qed.
 
 Lemma tie_tuple_sizes : gen_tuple_sizes = tuple_sizes.
 Proof. reflexivity. Qed.
+
+(* ---- lifetimes: every safe public / trait function of GenericArray and GenericArrayIter in
+        lib.rs, impls.rs, iter.rs, sequence.rs whose result carries a reference (or a
+        slice iterator's lifetime), as regenerated with lifetime elision applied
+        (coq/gen/GenLifetimes.v), ties each result reference to an argument reference of the
+        same lifetime and at least its mutability, and never to 'static ---- *)
+From GAGen Require Import GenLifetimes.
+
+Lemma tie_lifetimes_sound_b : forallb (fun p => sound_sig (snd p)) gen_signatures = true.
+Proof. vm_compute. reflexivity. Qed.
+
+Lemma tie_lifetimes_sound : forall n s, In (n, s) gen_signatures -> sound_sig s = true.
+Proof.
+  intros n s H. pose proof tie_lifetimes_sound_b as Hb. rewrite forallb_forall in Hb.
+  exact (Hb (n, s) H).
+Qed.
+
+(* the functions the hand-stated list SigDecls.signatures describes are all found in the source *)
+Definition lifetime_names_required : list string :=
+  ["GenericArray::as_slice"; "GenericArray::as_mut_slice"; "GenericArray::from_slice";
+   "GenericArray::try_from_slice"; "GenericArray::from_mut_slice"; "GenericArray::try_from_mut_slice";
+   "GenericArray::chunks_from_slice"; "GenericArray::chunks_from_slice_mut";
+   "GenericArray::slice_from_chunks"; "GenericArray::slice_from_chunks_mut";
+   "GenericArray::from_chunks"; "GenericArray::from_chunks_mut";
+   "GenericArray::into_chunks"; "GenericArray::into_chunks_mut";
+   "GenericArray::Deref::deref"; "GenericArray::DerefMut::deref_mut";
+   "&GenericArray::IntoIterator::into_iter"; "&mut GenericArray::IntoIterator::into_iter";
+   "&GenericArray::TryFrom::try_from"; "&mut GenericArray::TryFrom::try_from";
+   "&GenericArray::Split::split"; "&mut GenericArray::Split::split";
+   "&GenericArray::Flatten::flatten"; "&mut GenericArray::Flatten::flatten";
+   "&GenericArray::Unflatten::unflatten"; "&mut GenericArray::Unflatten::unflatten";
+   "GenericArray::Borrow::borrow"; "GenericArray::BorrowMut::borrow_mut";
+   "GenericArray::AsRef::as_ref"; "GenericArray::AsMut::as_mut";
+   "&GenericArray::From::from"; "&mut GenericArray::From::from";
+   "GenericArrayIter::as_slice"; "GenericArrayIter::as_mut_slice"].
+
+Lemma tie_lifetimes_cover :
+  forallb (fun n => existsb (String.eqb n) (map fst gen_signatures)) lifetime_names_required = true.
+Proof. vm_compute. reflexivity. Qed.
+
+(* and each of them has exactly the reference shape of its hand-stated counterpart: one
+   source reference, every result reference on that same lifetime with the same mutability *)
+Definition single_source_shape (s : sig) : bool :=
+  match sg_in s with
+  | [i] => match r_lt i with
+           | LtNamed _ => forallb (fun o => lifetime_eqb (r_lt o) (r_lt i) && Bool.eqb (r_mut o) (r_mut i)) (sg_out s)
+           | LtStatic => false
+           end
+  | _ => false
+  end.
+
+Lemma tie_lifetimes_shape : forallb (fun p => single_source_shape (snd p)) gen_signatures = true.
+Proof. vm_compute. reflexivity. Qed.
